@@ -156,7 +156,7 @@ def ensure(flavour="plain", repo=REPO, verbose=False):
         shutil.rmtree(tmp, ignore_errors=True)
     if verbose:
         print(f"[build] {flavour} {key} in {time.time() - t0:.1f}s", file=sys.stderr)
-    _prune(flavour, keep=3)
+    _prune(flavour, keep=80)
     return out
 
 
